@@ -1283,6 +1283,10 @@ func stockList() []*sspec {
 		sPB(sPB(sOff, none), none),
 		sPB(sPB(sRatio(0.5), none), [4]*sspec{nil, nil, sPB(sOff, [4]*sspec{nil, nil, sOff, sOn}), nil}),
 		sPB(sOn, [4]*sspec{sRatio(0.5), sRatio(0.5), sRatio(0.5), sRatio(0.5)}),
+		// a parent-based sampler whose ROOT is a parent-based sampler with every delegate inverted: the
+		// inner delegates are never consulted (the inner sampler only ever sees parentless spans)
+		sPB(sPB(sOn, [4]*sspec{sOff, sOn, sOff, sOn}), none),
+		sPB(sPB(sOff, [4]*sspec{sOff, sOn, sOff, sOn}), [4]*sspec{nil, nil, sCustom(sdktrace.RecordOnly, tsmOther), nil}),
 		sPB(sOff, [4]*sspec{sCustom(sdktrace.RecordOnly, tsmEmpty), sCustom(sdktrace.RecordAndSample, tsmOther), sCustom(sdktrace.Drop, tsmOther), sCustom(sdktrace.RecordOnly, tsmParent)}),
 	}
 }
